@@ -159,7 +159,7 @@ func (e *Env) multiSignWrongKey(ids []spectypes.OperatorID, msg *specqbft.Messag
 
 var certMutKinds = []string{"none", "drop-signer", "drop-signer-resigned", "dup-signer", "swap-signer", "add-foreign", "add-zero", "wrong-key",
 	"wrong-key-foreign", "fulldata", "fulldata-empty", "root-resigned", "root", "round", "round-resigned", "height", "height-resigned",
-	"ident", "ident-resigned", "type-resigned", "sig-flip", "sig-zero", "all-signers", "reorder-signers", "dataround-resigned", "just-resigned", "generic"}
+	"ident", "ident-resigned", "type-resigned", "sig-flip", "sig-zero", "one-real-signature", "one-real-signature", "all-signers", "reorder-signers", "dataround-resigned", "just-resigned", "generic"}
 
 // forgeCert derives one forged / mutated certificate from a real one.
 func forgeCert(env *Env, r *hx.Rng, base *specqbft.SignedMessage, mu *Mutator) ([]byte, string) {
@@ -254,6 +254,9 @@ func forgeCert(env *Env, r *hx.Rng, base *specqbft.SignedMessage, mu *Mutator) (
 		m.Signature[r.Intn(96)] ^= byte(1 << uint(r.Intn(8)))
 	case "sig-zero":
 		m.Signature = make([]byte, 96)
+	case "one-real-signature": // lists a quorum of signers, carries the signature of ONE of them only
+		s := env.sign(m.Signers[r.Intn(len(m.Signers))], &m.Message)
+		m.Signature = s.Signature
 	case "all-signers":
 		m.Signers = nil
 		for i := 1; i <= env.n; i++ {
@@ -302,10 +305,11 @@ func runC02Case(t *Traffic, op spectypes.OperatorID, r *hx.Rng) caseOut {
 		certs = append(certs, f.decided(f.subset(n), h, specqbft.Round(1+r.Intn(3)), valueBytes(r.Intn(60))))
 	}
 	policy := []string{"none", "none", "runner"}[r.Intn(3)]
-	c := newCase(env, op, t.h, [][]byte{badValue}, true, false, false)
+	prod := r.Chance(35)
+	c := newCaseCfg(env, op, t.h, [][]byte{badValue}, true, false, false, prod)
 	c.c02 = true
 	c.emit(c.resetLine(), "ok")
-	tags = append(tags, "compaction/"+policy)
+	tags = append(tags, "compaction/"+policy, fmt.Sprintf("config/production-%v", prod))
 	cut := 0
 	if len(script) > 0 {
 		cut = r.Intn(len(script) + 1)
@@ -444,10 +448,11 @@ func scenarioReusedSignature(h specqbft.Height) caseOut {
 func runC02History(r *hx.Rng, kind string, n int, h specqbft.Height, op spectypes.OperatorID, cur, k specqbft.Round, whoIdx int) caseOut {
 	env := getEnv(n)
 	f := &Forge{env: env, r: r, h: h}
-	c := newCase(env, op, h, [][]byte{badValue}, true, false, false)
+	prod := whoIdx%2 == 0 && r.Chance(70)
+	c := newCaseCfg(env, op, h, [][]byte{badValue}, true, false, false, prod)
 	c.c02 = true
 	c.emit(c.resetLine(), "ok")
-	tags := []string{"case/c02-history", "history/" + kind, fmt.Sprintf("n/%d", n)}
+	tags := []string{"case/c02-history", "history/" + kind, fmt.Sprintf("n/%d", n), fmt.Sprintf("config/production-%v", prod)}
 	c.applyCtrlStart(h, valueBytes(3))
 	for rd := specqbft.Round(1); rd < cur; rd++ {
 		c.applyCtrlTimeout(h, rd)
